@@ -304,6 +304,8 @@ def check_shape(params):
             perms = [perms[0], perms[-1], perms[len(perms) // 2]] + [dict(zip(names, ["Zz" + n for n in reversed(names)]))]
         else:
             perms.append(dict(zip(names, ["Zz" + n for n in reversed(names)])))
+        # names that contain one another (cpu / cpu-avx512 style) and an order that differs from the definition order
+        perms.append(dict(zip(names, ["cpu-avx-512", "cpu", "cpu-avx", "c"][:len(names)])))
 
         def same(thunk1, thunk2, name, extra_base=()):
             nonlocal nontrivial
@@ -424,8 +426,10 @@ def replay(obd, cex):
                 bad = False
                 a = f(sm, "A", "B") if base == "distance" else f(sm)
                 P = obd["params"]["P"]
-                for pi in it.permutations(NAMES[:P]):
-                    rn = dict(zip(NAMES[:P], pi))
+                renamings = [dict(zip(NAMES[:P], pi)) for pi in it.permutations(NAMES[:P])]
+                renamings.append(dict(zip(NAMES[:P], ["Zz" + n for n in reversed(NAMES[:P])])))
+                renamings.append(dict(zip(NAMES[:P], ["cpu-avx-512", "cpu", "cpu-avx", "c"][:P])))
+                for rn in renamings:
                     b = f(mk(1, rn), rn["A"], rn["B"]) if base == "distance" else f(mk(1, rn))
                     if (_isnan(a) != _isnan(b)) or (not _isnan(a) and abs(a - b) > 1e-9):
                         bad = True
